@@ -754,3 +754,71 @@ class Epilogue:
         T = self.w.terms(self.api)
         rts = [WD.strip_names(T.local(0, (rb, b.n_stmts(rb)))) for rb in b.return_blocks()]
         return all(t[0] == "call" and t[1] == self.host for t in rts)
+
+
+def load_points(w, fn, operand, point, want_prefix, depth=0, seen=None):
+    """Program points at which the value of `operand` (used at `point`) was read
+    from a place under `want_prefix` (an arg-rooted path prefix), following
+    copies through temporaries and user variables."""
+    seen = seen if seen is not None else set()
+    b = w.body(fn)
+    T = w.terms(fn)
+    out = set()
+    if operand["k"] == "const":
+        return out
+    p = w.definite_path(fn, operand) if any(e["k"] == "deref" for e in operand["proj"]) else None
+    if p is not None:
+        if p[:len(want_prefix)] == want_prefix:
+            out.add(tuple(point))
+        return out
+    l = operand["local"]
+    if depth > 8:
+        return out
+    for d in b.reaching_defs(l, tuple(point)):
+        if d == "entry":
+            continue
+        pt, kind, payload = d
+        if (l, pt) in seen:
+            continue
+        seen.add((l, pt))
+        if kind == "assign":
+            rv = payload
+            ops = []
+            if rv["k"] in ("use", "cast", "repeat"):
+                ops = [rv["op"]]
+            elif rv["k"] == "aggregate":
+                ops = list(rv["ops"])
+            elif rv["k"] == "binop":
+                ops = [rv["l"], rv["r"]]
+            elif rv["k"] == "unop":
+                ops = [rv["e"]]
+            for o in ops:
+                if o["k"] != "const":
+                    out |= load_points(w, fn, o, pt, want_prefix, depth + 1, seen)
+    return out
+
+
+def stale_operands(ctx, w, S, R, rule, variants):
+    """The cursor position handed to a buffer primitive is read AFTER the last
+    write to the cursor that precedes the call (no stale copy)."""
+    E = w.E
+    cur = R["cursor"]
+    ctx.rule(rule, "the cursor position passed to a buffer primitive is not a stale copy: no write to the cursor lies between reading it and the call")
+    n = 0
+    for v in variants:
+        for h in w.handler(v):
+            b = w.body(h)
+            for cs in E.call_sites(h):
+                if not (cs.local and S._impl_of(cs.callee) == S.buffer_ty and any(S.is_row_content(p) for p in cs.W)):
+                    continue
+                for a in cs.term["args"][1:]:
+                    if a["k"] == "const":
+                        continue
+                    lps = load_points(w, h, a, cs.point, ("arg1", cur))
+                    for lp in lps:
+                        n += 1
+                        bad = [q for q in b.points_between(lp, cs.point) if any(M.plain(x)[:2] == ("arg1", cur) and M.plain(x)[2:3] != ("visible",) for x in E.writes_at(h, q))]
+                        ctx.check(not bad, rule, "%s:%s@%s" % (v, site_key(w, h, cs.point), site_key(w, h, lp)),
+                                  "%s reads the cursor position, then changes the cursor (%s), then hands the OLD position to %s: the primitive acts at a stale column/row" %
+                                  (h, w.stmt_loc(h, bad[0]) if bad else "", cs.callee), loc=w.site_loc(cs), sample={"function": v, "callee": cs.callee})
+    return n
